@@ -325,3 +325,25 @@ def stat_buffer_reads(prog, cg, f):
         if bad:
             out.append((i, buf["name"], bad))
     return out, n_calls
+
+
+# ---------------------------------------------------------------------------------------------------
+# product of two 64-bit quantities in integer arithmetic (byte count x byte count overflows int64 from ~3 GiB x 3 GiB)
+def wide_products(f):
+    """[node] : integer multiplications whose two operands are both genuinely 64-bit (not literals, not values promoted from a
+    narrower type)."""
+    def wide(i):
+        n = f.nodes[i]
+        while n["k"] in ("cast", "paren"):
+            if n["k"] == "cast" and n.get("ck") == "IntegralCast" and n.get("fromtw", "") in ("i32", "u32", "i16", "u16", "i8", "u8", "b"):
+                return False
+            n = f.nodes[n["sub"]]
+        if n["k"] == "lit":
+            return False
+        return n.get("tw") in ("i64", "u64")
+    out = []
+    for i, n in enumerate(f.nodes):
+        if n["k"] == "bin" and n.get("op") in ("*", "*=") and n.get("tw") in ("i64", "u64") and f.pos_of(i) is not None:
+            if wide(n["l"]) and wide(n["r"]):
+                out.append(i)
+    return out
